@@ -918,6 +918,7 @@ func linForm(v ssa.Value, depth int) map[ssa.Value]int64 {
 func runFmtShape(m *model.Model, s *ob.Set) {
 	const R = "FMTSHAPE"
 	runFmtBShape(m, s)
+	runFmtLayout(m, s)
 	app := m.Lookup("(*Decimal).Append")
 	// SHORTEST: MarshalText -> Append(buf, fmt in {e,E,f,g,G}, prec < 0)
 	{
